@@ -21,6 +21,7 @@ byte-for-byte the old or the new version; unpack(pack(w)) = w.to_dict().
 import asyncio
 import base64
 import binascii
+import errno
 import hashlib
 import hmac
 import json
@@ -40,6 +41,8 @@ import lbry.crypto.crypt as crypt_mod
 from lbry.wallet import Ledger, Database, Headers, Wallet, Account
 from lbry.wallet.wallet import WalletStorage, ENCRYPT_ON_DISK
 from lbry.wallet.bip32 import PrivateKey
+from lbry.wallet.transaction import Transaction, Output
+from lbry.schema.claim import Claim
 from lbry.wallet.manager import WalletManager
 from lbry.conf import Config
 from lbry.wallet.words import english
@@ -346,6 +349,10 @@ class _WalletOs:
     def rename(self, a, b):
         if ENV.fail_rename and os.path.exists(b):
             raise PermissionError('simulated: os.rename refuses an existing target (Windows)')   # not an operation
+        if os.path.dirname(os.path.abspath(a)) != os.path.dirname(os.path.abspath(b)):
+            # the wallet directory is a file system of its own (the usual layout: wallet dir on disk, temp dir on tmpfs):
+            # a rename from any other directory is a rename across file systems
+            raise OSError(errno.EXDEV, 'Invalid cross-device link (wallet directory is its own file system)', a)
         ENV._op('rename', a, b)
         return os.rename(a, b)
 
@@ -614,6 +621,8 @@ class Machine:
         self.truth = []            # per account: plaintext secrets when it was added (None once tampered / foreign)
         self.acc_pw = []           # per account: the password it is currently encrypted under (None = plaintext)
         self.disk_pw = []          # the same for the accounts as they are in the wallet file
+        self.chan_count = []       # per account: how many of its deterministic channel keys own a channel seen by the ledger
+        self.world.ledger.accounts = []       # (each case starts with a ledger that knows no account)
         self.wallet_pw = None      # the password the USER gave last to a successful encrypt()/unlock(): the wallet's password
         self.started_encrypted = False   # came up through the daemon start-up path from a file with encrypted accounts
         self.enc_expected = False  # the monitor's OWN record of "encryption is enabled": encrypt() / a truthy encrypt-on-disk
@@ -690,12 +699,26 @@ class Machine:
             if k == 'set_pref':
                 w.preferences[op['key']] = json.loads(json.dumps(op['value']))
                 return 'True'
-            if k in ('acc_encrypt', 'acc_decrypt', 'set_cipher', 'touch_channel') and op['i'] >= len(w.accounts):
+            if k in ('acc_encrypt', 'acc_decrypt', 'set_cipher', 'touch_channel', 'channel_sync') and op['i'] >= len(w.accounts):
                 return 'MODEL-BAD-SHAPE'
             if k == 'acc_encrypt':
                 return str(w.accounts[op['i']].encrypt(op['pw']))
             if k == 'acc_decrypt':
                 return str(w.accounts[op['i']].decrypt(op['pw']))
+            if k == 'channel_sync':
+                # the ledger sees transactions holding the account's first n deterministic-key channels (what wallet sync
+                # does): real channel claim outputs through the real Ledger.maybe_has_channel_key
+                a = w.accounts[op['i']]
+                if a.encrypted or a.private_key is None:
+                    return 'True'
+                xprv = a.private_key.extended_key_string()
+                for j in range(op['n']):
+                    claim = Claim()
+                    claim.channel.public_key_bytes = chan_pubkey(chan_key(xprv, j))
+                    txo = Output.pay_claim_name_pubkey_hash(1000, '@channel%d' % j, claim,
+                                                            a.ledger.address_to_hash160(a.public_key.address))
+                    a.ledger.maybe_has_channel_key(Transaction().add_outputs([txo]))
+                return 'True'
             if k == 'touch_channel':
                 # what Ledger.subscribe_account / maybe_has_channel_key do at daemon start, locked or not
                 m = w.accounts[op['i']].deterministic_channel_keys
@@ -718,6 +741,8 @@ class Machine:
                 m[f] = hx(m[f])
         if 'ts' in m:
             m['ts'] = str(m['ts'])
+        if op['k'] == 'channel_sync':
+            m = {'k': 'touch_channel', 'i': op['i']}          # nothing observable changes in the model
         if op['k'] == 'add':
             m['account'] = op['_model_account']
         if op['k'] == 'set_pref':
@@ -743,6 +768,22 @@ class Machine:
             # interleaving, the user has supplied the password and the save must honour it
             return self.after(dict(op, k='unlock'), out) + self.after(dict(op, k='save'), 'True')
         bad = []
+        while len(self.chan_count) < len(w.accounts):
+            self.chan_count.append(0)
+        if k == 'channel_sync' and op['i'] < len(w.accounts):
+            a = w.accounts[op['i']]
+            if not a.encrypted and a.private_key is not None and self.truth[op['i']] is not None:
+                self.chan_count[op['i']] = max(self.chan_count[op['i']], op['n'])
+        if k == 'lock' and out != 'True' and self.wallet_pw is not None:
+            bad.append((f'the wallet has the password {self.wallet_pw!r} but lock() fails: {out}', {'finding': 'lock_refused'}))
+        if k in ('save', 'encrypt', 'decrypt', 'unlock_during_save') and out not in ('True', 'False', 'AssertionError'):
+            now = read_file(self.path)
+            if now != self.pre['file']:
+                bad.append((f'{k} failed ({out}) and the wallet file is no longer its previous version: '
+                            f'{"missing" if now is None else "%d bytes" % (len(now["data"]) // 2)}',
+                            {'finding': 'failed_save_damaged_wallet_file'}))
+            else:
+                bad.append((f'{k} failed: {out}', {'finding': 'save_raises'}))
         if k == 'add':
             a = w.accounts[-1]
             self.truth.append(secrets_view(a))
@@ -767,6 +808,7 @@ class Machine:
                             {'finding': 'encrypt_records_another_password'}))
         elif k in ('reload', 'save_crash', 'start') and out == 'True':
             self.wallet_pw = None
+            self.chan_count = [0] * len(w.accounts)       # a new process: the ledger has not seen any channel yet
             self.started_encrypted = k == 'start' and bool(w.is_locked)
             try:
                 filed = json.load(open(self.path)).get('preferences', {}).get(ENCRYPT_ON_DISK, {})
@@ -824,7 +866,17 @@ class Machine:
                             bad.append((f'after unlock the deterministic channel key 0 of account {i} is '
                                         f'{branch.child(0).extended_key_string()} instead of {want}',
                                         {'finding': 'channel_keys_not_restored'}))
-                        elif k == 'unlock' and self.pre['enc'][i]:
+                        else:
+                            for j in range(self.chan_count[i] if k == 'unlock' else 0):
+                                wj = chan_key(t['private_key'], j)
+                                gj = self.world.loop.run_until_complete(a.get_channel_private_key(chan_pubkey(wj)))
+                                if gj is None or gj.extended_key_string() != wj:
+                                    bad.append((f'account {i} owns {self.chan_count[i]} channels made with its deterministic keys; after '
+                                                f'unlock with the right password the key of channel {j} cannot be found '
+                                                f'(get_channel_private_key -> {gj}): channel keys are not restored',
+                                                {'finding': 'channel_keys_not_restored'}))
+                                    break
+                        if branch is not None and branch.child(0).extended_key_string() == want and k == 'unlock' and self.pre['enc'][i]:
                             got = self.world.loop.run_until_complete(a.get_channel_private_key(chan_pubkey(want)))
                             if got is None or got.extended_key_string() != want:
                                 bad.append((f'after unlock get_channel_private_key cannot find deterministic channel key 0 of '
@@ -1516,7 +1568,13 @@ def gen_machine_case(world, rng, flavour):
         return {'k': 'save_crash', 'ts': T(), 'rnd': R(), 'n': n, 'kb': rng.choice([0, 0, 1, 17, 500]) if n == 1 else 0}
 
     if flavour == 'lifecycle':
+        for i, kind in enumerate(kinds):
+            if kind in ('seed', 'key') and rng.random() < 0.5:
+                # the account owns channels made with its deterministic keys and the ledger has seen them
+                ops.append({'k': 'channel_sync', 'i': i, 'n': rng.choice([1, 2, 3])})
         ops += [{'k': 'encrypt', 'pw': pw, 'ts': T(), 'rnd': R()}, {'k': 'lock', 'rnd': R()}]
+        if rng.random() < 0.35:
+            ops.append({'k': 'unlock', 'pw': ''})          # a client trying the default (blank) sync password first
         if rng.random() < 0.3:
             ops += [{'k': 'touch_channel', 'i': i} for i in range(nacc)]
         ops += [{'k': 'unlock', 'pw': other_password(rng, pw)}, {'k': 'unlock', 'pw': pw}]
@@ -1713,7 +1771,8 @@ def main(run):
     S = lambda q, t: vlib.scaled(run.tier, q, t)  # noqa: E731
     run.rule = ('machine cases: 0-3 accounts (seeded with 1/2/12/13/24 English words and odd whitespace, key-only, watch-only, '
                 'single-address, custom gaps, 0-3 channel PEM keys, unicode/escaped names) then an operation sequence of one '
-                'flavour (unlock may have a save() from another task in flight; typos are also tried on the unlocked wallet; the '
+                'flavour (accounts may own channels made with their deterministic keys, seen by the ledger through real claim '
+                'outputs; file renames across directories fail with EXDEV as across file systems; unlock may have a save() from another task in flight; typos are also tried on the unlocked wallet; the '
                 'blank password is tried wherever the code accepts it): legacy (accounts stored encrypted, no encrypt-on-disk preference, brought up through the real '
                 'WalletManager.from_lbrynet_config, unlocked, saved), lifecycle (restart through from_storage or the daemon '
                 'start-up path; encrypt, lock, wrong password, right password, password change while unlocked then restart, '
